@@ -74,4 +74,28 @@ mod verif_witness_c18 {
         }
         assert_eq!(bad, 0);
     }
+
+    /// the bound holds for large tables too (the search's table holds ten million entries): a table of 2^24 entries, filled, then
+    /// four more keys — never more entries than the capacity, oldest keys gone, newest present
+    #[test]
+    fn verif_witness_c18_large_capacity() {
+        let cap: usize = 1 << 24;
+        let mut table: HashTable<u64, ()> = HashTable::new(cap);
+        for k in 0..cap as u64 { table.put(k, ()); }
+        let mut bad = 0;
+        if table.len() != cap { println!("FAILING-INPUT: capacity 2^24: after storing 2^24 distinct keys the table holds {} entries", table.len()); bad += 1; }
+        for extra in 0..4u64 {
+            table.put(cap as u64 + extra, ());
+            if table.len() > cap {
+                println!("FAILING-INPUT: capacity 2^24 = {}: after {} more keys the table holds {} entries", cap, extra + 1, table.len());
+                bad += 1;
+                break;
+            }
+        }
+        if bad == 0 {
+            for k in 0..4u64 { if table.get(k).is_some() { println!("FAILING-INPUT: capacity 2^24: the oldest key {} survived four evictions", k); bad += 1; } }
+            if table.get(4).is_none() || table.get(cap as u64 + 3).is_none() { println!("FAILING-INPUT: capacity 2^24: a key that should be present is gone"); bad += 1; }
+        }
+        assert_eq!(bad, 0);
+    }
 }
